@@ -76,6 +76,8 @@ impl Check for Goto {
         expected: &Ty,
     ) -> Result<Self, Error> {
         let cont_type = context.lookup_covar(&self.target, &self.span)?;
+        // the instance of the type of the covariable might not have been created yet
+        cont_type.check(&Some(self.span), symbol_table)?;
         self.term = self.term.check(symbol_table, context, &cont_type)?;
 
         self.ty = Some(expected.clone());
